@@ -126,6 +126,11 @@ fn parse_args(args: &[String]) -> Result<ShardArgs, String> {
 /// entry point called by the driver binary; returns the process exit code
 /// 0 = ran to completion (violations, if any, are in the out file), 3 = harness error
 pub fn run(args: Vec<String>) -> i32 {
+    run_with(args, |a| checks::dispatch(a))
+}
+
+/// same, with the dispatch supplied by the caller (used by the binding harness, hook H4)
+pub fn run_with(args: Vec<String>, dispatch: impl FnOnce(&ShardArgs) -> Result<(), String>) -> i32 {
     let a = match parse_args(&args) {
         Ok(a) => a,
         Err(e) => {
@@ -136,7 +141,7 @@ pub fn run(args: Vec<String>) -> i32 {
     util::install_panic_hook();
     trace::install();
     out::begin(&a);
-    let res = std::panic::catch_unwind(std::panic::AssertUnwindSafe(|| checks::dispatch(&a)));
+    let res = std::panic::catch_unwind(std::panic::AssertUnwindSafe(|| dispatch(&a)));
     match res {
         Ok(Ok(())) => {
             out::finish(&a, None);
